@@ -390,6 +390,109 @@ FLAG_VALUES = {"LZMA_TELL_NO_CHECK": 1, "LZMA_TELL_UNSUPPORTED_CHECK": 2, "LZMA_
                "LZMA_IGNORE_CHECK": 0x10, "LZMA_CONCATENATED": 8, "LZMA_FAIL_FAST": 0x20}
 
 
+def check_ignore_check_flow(ck, prog, rule="C05-IGNCHK", parts=("version", "after-header")):
+    """(version) lzma_block.ignore_check exists only in structures with version >= 1 (block.h): in a version-0 structure the
+    byte is a reserved member that applications were never asked to initialise, so lzma_block_decoder_init() may read it
+    only on the `version >= 1` side of a test of block->version.
+    (after-header) lzma_block_header_decode() always stores ignore_check = false; a stream decoder that was given
+    LZMA_IGNORE_CHECK therefore has to store the flag into block_options after that call, on every path that goes on to
+    use block_options."""
+    if "version" in parts:
+        f = prog.fn("lzma_block_decoder_init", "block_decoder.c")
+        ck.saw_function(f)
+        reads = {b.id for b, i, e in f.iter_elems() for x in ex.walk(e, into_refs=False)
+                 if x.get("k") == "mem" and x.get("f") == "ignore_check" and x.get("rec") == "lzma_block"}
+        if not reads:
+            raise AnalysisBroken("lzma_block_decoder_init: no read of lzma_block.ignore_check")
+
+        def v0_succ(b):
+            """successor taken when block->version == 0, or None when the branch does not test the version"""
+            c = ex.strip(b.term["cond"]) if b.term and "cond" in b.term else None
+            if c is None or len(b.succs) != 2:
+                return None
+            neg = False
+            while c.get("k") == "un" and c["op"] == "!":
+                neg, c = not neg, ex.strip(c["e"])
+            if c.get("k") == "paren":
+                c = ex.strip(c["e"])
+            if c.get("k") == "mem" and c.get("f") == "version":
+                val = 0
+            elif c.get("k") == "bin" and c["op"] in ("==", "!=", "<", "<=", ">", ">="):
+                l, r = ex.strip(c["l"]), ex.strip(c["r"])
+                if l.get("k") == "mem" and l.get("f") == "version" and ex.const_val(r) is not None:
+                    a, b_ = 0, ex.const_val(r)
+                elif r.get("k") == "mem" and r.get("f") == "version" and ex.const_val(l) is not None:
+                    a, b_ = ex.const_val(l), 0
+                else:
+                    return None
+                val = {"==": a == b_, "!=": a != b_, "<": a < b_, "<=": a <= b_, ">": a > b_, ">=": a >= b_}[c["op"]]
+            else:
+                return None
+            return b.succs[0] if bool(val) != neg else b.succs[1]
+        seen, st = set(), [f.entry]
+        while st:
+            x = st.pop()
+            if x in seen or x is None:
+                continue
+            seen.add(x)
+            b = f.blocks[x]
+            s0 = v0_succ(b)
+            st.extend([s0] if s0 is not None else [y for y in b.succs if y is not None])
+        bad = sorted(reads & seen)
+        ck.ob(rule, "version-gated-read", not bad, common.where(f),
+              "lzma_block_decoder_init reads block->ignore_check only where block->version >= 1" if not bad else
+              "lzma_block_decoder_init() reads block->ignore_check also when block->version is 0: in a version-0 lzma_block that byte "
+              "is a reserved member the application never initialised, and a non-zero value makes the Block decoder skip the Check "
+              "comparison (damaged data reported as success)", key="IGNCHK:version-gated-read")
+    if "after-header" in parts:
+        for nm, file, user in (("stream_decode", "stream_decoder.c", "lzma_block_decoder_init"),
+                               ("decode_block_header", "stream_decoder_mt.c", None)):
+            f = prog.fn(nm, file)
+            ck.saw_function(f)
+            H = [(b.id, i) for b, i, e in f.iter_elems() for c in ex.calls(e, into_refs=False)
+                 if c.get("fn") == "lzma_block_header_decode"]
+            S = [(b.id, i) for b, i, e in f.iter_elems() for (l, r, op, node) in ex.writes(e)
+                 if ex.show(l).endswith("block_options.ignore_check")]
+            if not H:
+                raise AnalysisBroken("%s: call of lzma_block_header_decode not found" % nm)
+            sblocks = {b for b, i in S}
+
+            def is_dst(bid):
+                b = f.blocks[bid]
+                for e in b.elems:
+                    if e is None:
+                        continue
+                    if user and any(c.get("fn") == user for c in ex.calls(e, into_refs=False)):
+                        return True
+                    e_ = ex.deref(e)
+                    if not user and e_.get("k") == "ret":
+                        rv = ex.strip(e_.get("e")) if e_.get("e") is not None else None
+                        if rv is None or not (rv.get("k") == "var" and rv.get("n") in ("ret_", "ret")):
+                            return True
+                return False
+            open_ = None
+            for hb, hi in H:
+                if any(b == hb and i > hi for b, i in S):
+                    continue
+                seen, st = set(), [y for y in f.blocks[hb].succs if y is not None]
+                while st:
+                    x = st.pop()
+                    if x in seen or x in sblocks:
+                        continue
+                    seen.add(x)
+                    if is_dst(x):
+                        open_ = x
+                        break
+                    st.extend(y for y in f.blocks[x].succs if y is not None)
+            ck.ob(rule, "flag-after-header:" + nm, open_ is None, common.where(f),
+                  "%s: block_options.ignore_check is stored after lzma_block_header_decode() on every path that uses block_options" % nm
+                  if open_ is None else
+                  "%s(): after lzma_block_header_decode() (which always stores ignore_check = false) %s can be reached without a store to "
+                  "block_options.ignore_check: LZMA_IGNORE_CHECK is silently dropped by this decoder (the single-threaded and the "
+                  "threaded decoder then disagree about the same file)" % (
+                      nm, ("%s()" % user) if user else "the successful return"), key="IGNCHK:flag-after-header:" + nm)
+
+
 def run(ck):
     ck.explanation = (
         "Edge-cut rule on the resume-aware (block x finite state) product graph of every container "
@@ -433,6 +536,8 @@ def run(ck):
           "lzma_block_header_decode() can return LZMA_OK via %s without storing block->ignore_check = false: the flag keeps "
           "whatever the caller's structure held, and lzma_block_decoder() then accepts a Block whose Check does not match "
           "(damaged data reported as success)" % w, key="IGNCHK:lzma_block_header_decode")
+    check_ignore_check_flow(ck, prog)
+    ck.floor("C05-IGNCHK", 4)
     # Stream Padding / footer positions counted across calls (a damaged stream must be rejected however it is sliced)
     from . import reinit
     ck.rule("C05-ACCUM", "counters that a decoder state tests (Stream Padding alignment, positions) accumulate across calls")
